@@ -76,7 +76,20 @@ def run(ctx):
                detail='raising tests: %s' % [t for _, _, t in raising_tests])
     jit = any('jitter' in t and '-1' in t and ('<= 1' in t or '1.0' in t) for _, _, t in raising_tests)
     ctx.ob('T9.range', bi.fq, 'jitter outside [-1, 1] rejected (raises ValueError)', jit, loc=bi.loc)
-    # T7 clamp between every change of cur and the next yield (source-level expressions)
+    # T7 clamp between every change of the running delay and the next yield (source-level expressions).
+    # The running variable is discovered: the target of `X *= factor` (or X = X * factor).
+    CUR = None
+    for n in ast.walk(bi.node):
+        if isinstance(n, ast.AugAssign) and isinstance(n.op, ast.Mult) and isinstance(n.target, ast.Name) and txt(n.value) == 'factor':
+            CUR = n.target.id
+        if isinstance(n, ast.Assign) and len(n.targets) == 1 and isinstance(n.targets[0], ast.Name) and \
+                any(isinstance(b, ast.BinOp) and isinstance(b.op, ast.Mult) and
+                    {txt(b.left), txt(b.right)} == {n.targets[0].id, 'factor'} for b in ast.walk(n.value)):
+            CUR = n.targets[0].id
+    if CUR is None:
+        raise AnalysisError('anchor vanished: no `X *= factor` growth step in backoff_iter')
+    STOP = 'stop'
+    GT = ((CUR, 'Gt', STOP), (STOP, 'Lt', CUR), (CUR, 'GtE', STOP), (STOP, 'LtE', CUR))
     assign_of = {}
     for n in ast.walk(bi.node):
         if isinstance(n, ast.Assign):
@@ -89,15 +102,15 @@ def run(ctx):
         for i, o in enumerate(ops):
             grows = False
             src = ''
-            if o.kind == 'aug' and isinstance(o.node.target, ast.Name) and o.node.target.id == 'cur' \
+            if o.kind == 'aug' and isinstance(o.node.target, ast.Name) and o.node.target.id == CUR \
                     and isinstance(o.node.op, (ast.Mult, ast.Add, ast.Pow)):
                 grows = True
                 src = txt(o.node)
-            elif o.kind == 'name_store' and getattr(o.node, 'id', None) == 'cur' and id(o.node) in assign_of \
+            elif o.kind == 'name_store' and getattr(o.node, 'id', None) == CUR and id(o.node) in assign_of \
                     and any(x.kind == 'yield' and x.seq < o.seq for x in ops):
                 rhs = txt(assign_of[id(o.node)].value)
-                src = 'cur = ' + rhs
-                if rhs != 'stop' and not rhs.replace(' ', '').startswith(('min(cur,stop)', 'min(stop,cur)')):
+                src = CUR + ' = ' + rhs
+                if rhs != STOP and not rhs.replace(' ', '').startswith(('min(%s,stop)' % CUR, 'min(stop,%s)' % CUR)):
                     grows = True
             if not grows:
                 continue
@@ -106,20 +119,12 @@ def run(ctx):
                 continue
             n_checked += 1
             between = [x for x in ops if o.seq < x.seq < nxt.seq]
-            clamp_test = any(x.kind == 'test' and x.info is True and
-                             canon_cmp(x.node) in (('cur', 'Gt', 'stop'), ('stop', 'Lt', 'cur'), ('cur', 'GtE', 'stop'),
-                                                   ('stop', 'LtE', 'cur')) for x in between) or \
-                any(x.kind == 'test' and x.info is False and
-                    canon_cmp(x.node) in (('cur', 'LtE', 'stop'), ('stop', 'GtE', 'cur'), ('cur', 'Lt', 'stop'),
-                                          ('stop', 'Gt', 'cur'), ('cur', 'Gt', 'stop'), ('stop', 'Lt', 'cur')) for x in between)
-            clamp_min = any(x.kind == 'name_store' and getattr(x.node, 'id', None) == 'cur' and id(x.node) in assign_of and
-                            txt(assign_of[id(x.node)].value).replace(' ', '') in ('min(cur,stop)', 'min(stop,cur)')
+            clamp_min = any(x.kind == 'name_store' and getattr(x.node, 'id', None) == CUR and id(x.node) in assign_of and
+                            txt(assign_of[id(x.node)].value).replace(' ', '') in ('min(%s,stop)' % CUR, 'min(stop,%s)' % CUR)
                             for x in between)
-            folded = src.replace(' ', '').startswith('cur=min(') and 'stop' in src
+            folded = src.replace(' ', '').startswith(CUR + '=min(') and STOP in src
             # the clamp test was evaluated (either outcome) => the clamp guards this path
-            tested = any(x.kind == 'test' and canon_cmp(x.node) in (('cur', 'Gt', 'stop'), ('stop', 'Lt', 'cur'),
-                                                                     ('cur', 'GtE', 'stop'), ('stop', 'LtE', 'cur'))
-                         for x in between)
+            tested = any(x.kind == 'test' and canon_cmp(x.node) in GT for x in between)
             ok = tested or clamp_min or folded
             ctx.ob('T7.clamp', bi.fq, 'after `%s` the delay is compared with / clamped to stop before the next value is yielded'
                    % src, ok, loc=loc(bi, o.node), path=p.describe() if not ok else None)
@@ -144,8 +149,21 @@ def run(ctx):
                 got[bi.params[i]] = txt(a)
             ok = got == {p: p for p in bi.params}
     ctx.ob('T17', b.fq, 'backoff(...) == list(backoff_iter(same arguments))', ok, loc=b.loc)
-    rej = any(isinstance(n, ast.If) and "'repeat'" in txt(n.test) and any(isinstance(x, ast.Raise) for x in n.body)
-              for n in ast.walk(b.node))
+    from sa.consteval import Folder, Unknown
+    folder = Folder(prog.module('iterutils'))
+
+    def is_repeat(e):
+        if isinstance(e, ast.Constant):
+            return e.value == 'repeat'
+        if isinstance(e, ast.Name):
+            try:
+                return folder.name(e.id) == 'repeat'
+            except Unknown:
+                return False
+        return False
+    rej = any(isinstance(n, ast.If) and isinstance(n.test, ast.Compare) and txt(n.test.left) == 'count' and
+              isinstance(n.test.ops[0], ast.Eq) and is_repeat(n.test.comparators[0]) and
+              any(isinstance(x, ast.Raise) for x in n.body) for n in ast.walk(b.node))
     ctx.ob('T17', b.fq, "backoff rejects count='repeat' (a list cannot be endless)", rej, loc=b.loc)
     for r, n in (('T9.validate', 1), ('T9.range', 6), ('T7.clamp', 2), ('T17', 2), ('T19c', 1)):
         ctx.need(r, n)
